@@ -111,5 +111,5 @@ def plan(tier):
         for name in SPECS:
             for ns in range(len(NS_MAPS)):
                 for ida in (0, 1):
-                    jobs.append(Job("agree", {"spec": name, "ns": ns, "ida": ida, "slen": 2, "imax": 1000, "walk": int(name in _WALK)}, 600, 40))
+                    jobs.append(Job("agree", {"spec": name, "ns": ns, "ida": ida, "slen": 1 if name in ("unions_str", "compound") else 2, "imax": 1000, "walk": int(name in _WALK)}, 900, 40))
     return jobs
